@@ -152,7 +152,7 @@ impl Plan {
 
     pub fn rsa_bits(&self) -> u32 {
         match self.ee_kind {
-            KeyKind::Rsa(b) | KeyKind::RsaPss(b) => b,
+            KeyKind::Rsa(b) | KeyKind::RsaPss(b) | KeyKind::RsaPssParams(b) => b,
             _ => 0,
         }
     }
@@ -162,7 +162,7 @@ impl Plan {
         let s = &self.spec;
         let spki = match self.ee_kind {
             KeyKind::Rsa(_) => "rsa",
-            KeyKind::RsaPss(_) => "rsapss",
+            KeyKind::RsaPss(_) | KeyKind::RsaPssParams(_) => "rsapss",
             KeyKind::Ed25519 => "other",
             _ => "ec",
         };
@@ -396,6 +396,13 @@ pub fn mutation_names() -> Vec<&'static str> {
         "rsa-2047",
         "rsa-3072",
         "rsapss-spki",
+        "rsapss-1024",
+        "rsapss-2047",
+        "rsapss-3072",
+        "rsapss-params-1024",
+        "rsapss-params-2047",
+        "rsapss-params-2048",
+        "rsapss-params-3072",
         "issuer-uid",
         "subject-uid",
         "both-uid",
@@ -485,6 +492,13 @@ pub fn mutate(p: &mut Plan, name: &str, t: i64) {
         "rsa-2047" => p.ee_kind = KeyKind::Rsa(2047),
         "rsa-3072" => p.ee_kind = KeyKind::Rsa(3072),
         "rsapss-spki" => p.ee_kind = KeyKind::RsaPss(2048),
+        "rsapss-1024" => p.ee_kind = KeyKind::RsaPss(1024),
+        "rsapss-2047" => p.ee_kind = KeyKind::RsaPss(2047),
+        "rsapss-3072" => p.ee_kind = KeyKind::RsaPss(3072),
+        "rsapss-params-1024" => p.ee_kind = KeyKind::RsaPssParams(1024),
+        "rsapss-params-2047" => p.ee_kind = KeyKind::RsaPssParams(2047),
+        "rsapss-params-2048" => p.ee_kind = KeyKind::RsaPssParams(2048),
+        "rsapss-params-3072" => p.ee_kind = KeyKind::RsaPssParams(3072),
         "issuer-uid" => s.issuer_uid = true,
         "subject-uid" => s.subject_uid = true,
         "both-uid" => {
@@ -621,7 +635,7 @@ impl Signer for DirectSigner {
 
 pub fn alg_for(kind: KeyKind) -> SigningAlg {
     match kind {
-        KeyKind::Rsa(_) | KeyKind::RsaPss(_) => SigningAlg::Ps256,
+        KeyKind::Rsa(_) | KeyKind::RsaPss(_) | KeyKind::RsaPssParams(_) => SigningAlg::Ps256,
         KeyKind::P384 => SigningAlg::Es384,
         KeyKind::P521 => SigningAlg::Es512,
         KeyKind::Ed25519 => SigningAlg::Ed25519,
